@@ -643,6 +643,8 @@ def _gen_valid(rng):
         rng.shuffle(g2)
         if done and rng.random() < 0.4:
             g2 = g2 + [rng.choice(done)]              # a repeated name
+        if rng.random() < 0.35:
+            g2.insert(rng.randrange(len(g2) + 1), rng.choice(g))   # a NEW name twice in one call
         ops.append(["reg", g2])
         done += g
         ops += _ops_probe(rng, [files[n]["data"] for n in done] + _builtin_defs(rng), rng.choice([1, 2]))
@@ -848,6 +850,8 @@ def corpus():
          "files": dict(files, **{"bad.json": {"kind": "raw", "text": "{"}}),
          "ops": [["reg", ["b.json"]], ["reg", ["bad.json", "a.json"]], ["find", "gdc-1.0.0", "gdc-1.0.0-lab-b"],
                  ["reg", ["a.json"]], ["rt", "gdc-1.0.0", "gdc-1.0.0-lab-b"]]},
+        {"stream": "corpus", "note": "a new file named twice in one call registers once", "files": files,
+         "ops": [["reg", ["a.json", "b.json", "a.json"]], ["find", "gdc-1.0.0", "gdc-1.0.0-lab-a"], ["rt", "gdc-1.0.0", "gdc-1.0.0-lab-b"]]},
         {"stream": "corpus", "note": "a later definition re-using a registered annotation under another version displaced its owner",
          "files": dict(files, **{"a2.json": {"kind": "json", "data": dict(A, version="gdc-1.0.1")}}),
          "ops": [["reg", ["a.json"]], ["reg", ["a2.json"]], ["find", "gdc-1.0.0", "gdc-1.0.0-lab-a"],
